@@ -1009,6 +1009,9 @@ func (c *caseGen) issueScenario() {
 }
 
 func gen(g *GenCtx) {
+	if g.Parts > 1 { // every part of a split run gets its own random stream
+		g.R = NewRng(g.R.U64() + uint64(g.Part)*0x9E3779B97F4A7C15)
+	}
 	n := 380
 	if g.Thorough() {
 		n = 25000 / g.Parts
@@ -1030,6 +1033,9 @@ func gen(g *GenCtx) {
 			}
 		}
 	}
+	if g.Thorough() {
+		bitflipFamily(g)
+	}
 	// malformed operation lines
 	g.Op("new")
 	g.Op("verify 0 - none 1 0 1 0")
@@ -1042,4 +1048,73 @@ func gen(g *GenCtx) {
 	g.Op("issue 5 0 9 . %x 1 0 1 :: 0 0 0 .", make([]byte, 32))
 	g.Op("why now")
 	g.Op("frobnicate")
+}
+
+// bitflipFamily: every single-bit flip of one verified leaf and of its intermediate, each against
+// three store / presentation configurations (thorough tier; bits are split across the parts).
+func bitflipFamily(g *GenCtx) {
+	r := g.R
+	fam := NewRng(7) // the same chain in every part
+	rootKey, intKey := fam.Bytes(32), fam.Bytes(32)
+	T := int64(1700000000)
+	rs := certSpec{typ: 3, iss: T - 1000, exp: T + 1000, pub: edPub(rootKey), signer: rootKey}
+	rb := rs.bytes()
+	var c *caseGen
+	var root, inter, leaf int
+	var ib, lb []byte
+	start := func() {
+		g.Op("new")
+		c = &caseGen{g: g, r: r, w: newWorld(), rootKeys: [][]byte{rootKey}, intKeys: [][]byte{intKey}}
+		root = c.emitCert(rb, rootKey)
+		is := certSpec{typ: 2, iss: T - 900, exp: T + 900, pub: edPub(intKey), signer: rootKey, parent: c.w.objs[root].c.Fingerprint,
+			names: []certs.Name{certs.RawStringName("ca")}}
+		ib = is.bytes()
+		inter = c.emitCert(ib, intKey)
+		ls := certSpec{typ: 1, iss: T - 800, exp: T + 800, signer: intKey, parent: c.w.objs[inter].c.Fingerprint,
+			names: []certs.Name{certs.DNSName("host.example"), certs.RawStringName("x")}}
+		copy(ls.pub[:], fam.Bytes(0))
+		lb = ls.bytes()
+		leaf = c.emitCert(lb, nil)
+	}
+	start()
+	nbits := (len(ib) + len(lb)) * 8
+	count := 0
+	for b := 0; b < nbits; b++ {
+		if b%g.Parts != g.Part {
+			continue
+		}
+		if count > 0 && count%48 == 0 {
+			start()
+		}
+		count++
+		if b < len(lb)*8 {
+			fb := append([]byte{}, lb...)
+			fb[b/8] ^= 1 << (b % 8)
+			l2 := c.emitCert(fb, nil)
+			c.plain("", "reset")
+			c.plain("", "add %d", root)
+			c.plain("leaf-bitflip", "verify %d %d 1:%x %d 0 %d 0", l2, inter, "host.example", T, T)
+			c.plain("", "why")
+			c.plain("", "add %d", inter)
+			c.plain("leaf-bitflip", "verify %d - none %d 0 %d 0", l2, T, T)
+			c.plain("leaf-bitflip", "verify %d %d none %d 0 %d 0", l2, inter, T, T)
+		} else {
+			k := b - len(lb)*8
+			fb := append([]byte{}, ib...)
+			fb[k/8] ^= 1 << (k % 8)
+			i2 := c.emitCert(fb, nil)
+			c.plain("", "reset")
+			c.plain("", "add %d", root)
+			c.plain("inter-bitflip", "verify %d %d none %d 0 %d 0", leaf, i2, T, T)
+			c.plain("", "why")
+			c.plain("", "add %d", i2)
+			c.plain("inter-bitflip", "verify %d - none %d 0 %d 0", leaf, T, T)
+			c.plain("", "add %d", inter)
+			c.plain("inter-bitflip-stored", "verify %d %d none %d 0 %d 0", leaf, i2, T, T)
+		}
+	}
+	// the untouched chain verifies
+	c.plain("", "reset")
+	c.plain("", "add %d", root)
+	c.plain("valid", "verify %d %d none %d 0 %d 0", leaf, inter, T, T)
 }
